@@ -139,6 +139,16 @@ theorem pyInt_digits (e : Env) (s : Str) (h : AllD s) (hne : s ≠ []) :
     have h2 : c ≠ '+' := digit_ne hc (by decide)
     simp [h1, h2, intBody_digits_ne e (c :: cs) h hne false, dval]
 
+theorem all_of_AllD {s : Str} (h : AllD s) : s.all isAsciiDigit = true :=
+  List.all_eq_true.2 h
+
+/-- the strict `parse_int` on a non-empty run of ASCII digits -/
+theorem parseInt_digits (e : Env) (s : Str) (h : AllD s) (hne : s ≠ []) :
+    parseInt e s = some ((dval s : Nat) : Int) := by
+  unfold parseInt
+  have h1 : s.isEmpty = false := by cases s <;> simp_all
+  simp [h1, all_of_AllD h, pyInt_digits e s h hne]
+
 /-! ### `str(n)` and zero padding -/
 
 /-- the digit character of `d < 10` -/
@@ -282,6 +292,9 @@ theorem zpad_length (n w : Nat) (hw : 1 ≤ w) (h : n < 10 ^ w) : (zpad n w).len
 theorem pyInt_zpad (e : Env) (n w : Nat) : e.pyInt (zpad n w) = some (n : Int) := by
   rw [pyInt_digits e _ (zpad_AllD n w) (zpad_ne_nil n w), dval_zpad]
 
+theorem parseInt_zpad (e : Env) (n w : Nat) : parseInt e (zpad n w) = some (n : Int) := by
+  rw [parseInt_digits e _ (zpad_AllD n w) (zpad_ne_nil n w), dval_zpad]
+
 theorem zpadInt_ofNat (n w : Nat) : zpadInt (n : Int) w = zpad n w := by
   have : ¬ ((n : Int) < 0) := by omega
   simp [zpadInt, this]
@@ -340,7 +353,7 @@ theorem parseDigits_ok (e : Env) {v : Str} {i n : Nat} {r : Str} (hn : n < 100)
   have hl : (zpad n 2).length = 2 := zpad_length n 2 (by decide) (by simpa using hn)
   have hs := h.slice
   rw [hl] at hs
-  simp [parseDigits, hs, pyInt_zpad]
+  simp [parseDigits, hs, parseInt_zpad]
 
 theorem Sfx.adv_zpad2 {v : Str} {i n : Nat} {r : Str} (hn : n < 100)
     (h : Sfx v i (zpad n 2 ++ r)) : Sfx v (i + 2) r := by
@@ -412,7 +425,7 @@ theorem parseMinimumDigits_ok (e : Env) {v : Str} {i y : Nat} {r : Str} (hr : No
   have hidx : i + 4 + ((zpad y 4).drop 4).length = i + (zpad y 4).length := by simp; omega
   unfold parseMinimumDigits
   simp only []
-  rw [hscan, hidx, h.slice, pyInt_zpad]; rfl
+  rw [hscan, hidx, h.slice, parseInt_zpad]; rfl
 
 theorem dropWhile_replicate0 (k : Nat) (c : Char) (t : Str) (hc : c ≠ '0') :
     (List.replicate k '0' ++ c :: t).dropWhile (· = '0') = c :: t := by
@@ -539,7 +552,7 @@ theorem parseFrac_some (e : Env) {v : Str} {i : Nat} {ds r : Str} (hd : AllD ds)
   simp only [h.lt, decide_true, Bool.true_and, beq_self_eq_true, if_true]
   unfold parseFixedDigits
   simp only []
-  rw [hscan, h1.slice, pyInt_digits e _ hall hne', hval]; rfl
+  rw [hscan, h1.slice, parseInt_digits e _ hall hne', hval]; rfl
 
 /-- the fractional part as printed by `format_time` -/
 def fracStr (f : Nat) : Str :=
@@ -625,7 +638,7 @@ theorem parseOffset_Z (e : Env) {v : Str} {i : Nat} (h : Sfx v i ['Z']) :
   simp [h.lt, hd]
 
 theorem parseOffset_signed (e : Env) {v : Str} {i hh mm : Nat} (c : Char) (hc : c = '-' ∨ c = '+')
-    (hhh : hh < 100) (hmm : mm < 100)
+    (hhh : hh < 100) (hmm : mm ≤ 59)
     (h : Sfx v i (c :: (zpad hh 2 ++ ':' :: (zpad mm 2 ++ [])))) :
     parseOffset e ⟨v, i⟩ =
       some (some (if c = '-' then ((hh : Int) * 60 + mm) * (-1) else ((hh : Int) * 60 + mm) * 1),
@@ -633,7 +646,8 @@ theorem parseOffset_signed (e : Env) {v : Str} {i hh mm : Nat} (c : Char) (hc : 
   have h1 := h.adv1
   have h2 := h1.adv_zpad2 hhh
   have h3 := h2.adv1
-  have h4 := h3.adv_zpad2 hmm
+  have hmm' : mm < 100 := by omega
+  have h4 := h3.adv_zpad2 hmm'
   have hd := h4.done
   have hZ : c ≠ 'Z' := by rcases hc with rfl | rfl <;> decide
   unfold parseOffset PS.hasMore PS.peek
@@ -641,7 +655,8 @@ theorem parseOffset_signed (e : Env) {v : Str} {i hh mm : Nat} (c : Char) (hc : 
   simp only [h.lt, decide_true, Bool.not_true, Bool.false_eq_true, if_false, hZ]
   have hcc : (decide (c = '-') || decide (c = '+')) = true := by
     rcases hc with rfl | rfl <;> decide
-  simp only [hcc, if_true, parseDigits_ok e hhh h1, skip_ok h2, parseDigits_ok e hmm h3]
+  have hle : ¬ ((mm : Int) > 59) := by omega
+  simp only [hcc, if_true, parseDigits_ok e hhh h1, skip_ok h2, parseDigits_ok e hmm' h3, hle, if_false]
   rw [← hd]
 
 /-- `parse_offset` inverts `format_offset` (for offsets below 100 hours) and
